@@ -178,6 +178,7 @@ func (w *AWorld) bootAgent(cfg Config, upgrades, policyType, policyCond, hooksDi
 	a.name = fmt.Sprintf("agent%d", a.idx)
 	a.cfgPath = fmt.Sprintf("/etc/whawty/%s.yaml", a.name)
 	w.fs.Put(a.cfgPath, []byte(cfg.YAML()), 0o600)
+	synctest.Wait() // stragglers of earlier in-process CLI runs must not fall into the adoption window
 	w.sched.Adopt(a.name)
 	st, err := NewStore(a.cfgPath, upgrades, policyType, policyCond, hooksDir)
 	synctest.Wait()
@@ -189,6 +190,23 @@ func (w *AWorld) bootAgent(cfg Config, upgrades, policyType, policyCond, hooksDi
 	a.iface = st.GetInterface()
 	w.agents = append(w.agents, a)
 	w.r.Logf("boot %s: %s upgrades=%q policy=%q/%q hooks=%q", a.name, cfg.Desc(), upgrades, policyType, policyCond, hooksDir)
+	return a, nil
+}
+
+// bootAgentExisting starts an agent on an existing configuration file.
+func (w *AWorld) bootAgentExisting(cfg Config, cfgPath, upgrades, policyType, policyCond, hooksDir string) (*Agent, error) {
+	a := &Agent{idx: len(w.agents), cfg: cfg, upgrades: upgrades, hooksDir: hooksDir, cfgPath: cfgPath}
+	a.name = fmt.Sprintf("agent%d", a.idx)
+	synctest.Wait()
+	w.sched.Adopt(a.name)
+	st, err := NewStore(cfgPath, upgrades, policyType, policyCond, hooksDir)
+	synctest.Wait()
+	w.sched.EndAdopt()
+	if err != nil {
+		return nil, err
+	}
+	a.st, a.iface = st, st.GetInterface()
+	w.agents = append(w.agents, a)
 	return a, nil
 }
 
@@ -295,7 +313,10 @@ func (w *AWorld) exec(c *Call) {
 		req := httptest.NewRequest("GET", "/basic-auth", nil)
 		req.SetBasicAuth(c.User, c.PW)
 		rec := httptest.NewRecorder()
-		a.mux.ServeHTTP(rec, req)
+		if p := serveRecover(a.mux, rec, req); p != "" {
+			c.Status, c.Body = -1, "HANDLER PANIC: "+p
+			return
+		}
 		c.Status, c.Body = rec.Code, rec.Body.String()
 		c.OK = rec.Code == 200
 	case "api":
@@ -303,6 +324,18 @@ func (w *AWorld) exec(c *Call) {
 	default:
 		c.Err = "harness: unknown frontend " + c.Via
 	}
+}
+
+// serveRecover calls the handler the way net/http does: a panic is recovered (the real
+// server then aborts the connection). Returns the panic text, "" if none.
+func serveRecover(h http.Handler, rec *httptest.ResponseRecorder, req *http.Request) (p string) {
+	defer func() {
+		if x := recover(); x != nil {
+			p = fmt.Sprint(x)
+		}
+	}()
+	h.ServeHTTP(rec, req)
+	return ""
 }
 
 func (w *AWorld) postJSON(a *Agent, path string, body any) (int, map[string]any, string) {
@@ -317,7 +350,10 @@ func (w *AWorld) postJSON(a *Agent, path string, body any) (int, map[string]any,
 	req := httptest.NewRequest("POST", path, rd)
 	req.Header.Set("Content-Type", "application/json")
 	rec := httptest.NewRecorder()
-	a.mux.ServeHTTP(rec, req)
+	if p := serveRecover(a.mux, rec, req); p != "" {
+		// net/http recovers a panicking handler and aborts the connection: no status at all
+		return -1, map[string]any{}, "HANDLER PANIC: " + p
+	}
 	var m map[string]any
 	json.Unmarshal(rec.Body.Bytes(), &m) //nolint
 	return rec.Code, m, rec.Body.String()
@@ -588,7 +624,29 @@ func (w *AWorld) runLoop(o loopOpts) {
 
 // drain: the fair phase after workload and faults have stopped. Returns "" when every
 // client call returned and the agent went quiet, otherwise a description of the wedge.
-func (w *AWorld) drain(extra func() bool) string {
+func (w *AWorld) drain(extra func() bool) string { return w.drainMode(extra, true) }
+
+// settle is drain for sequential use: it lets everything runnable run until the agent is
+// quiet but does not advance the clock when all client calls have returned (session
+// tokens and rate-limit windows stay as they are). If calls remain unanswered it falls
+// back to the full drain, which decides whether that is a wedge.
+func (w *AWorld) settle(extra func() bool) string { return w.drainMode(extra, false) }
+
+func (w *AWorld) allCallsDone() bool {
+	for _, c := range w.calls {
+		if !c.done.Load() {
+			return false
+		}
+	}
+	for _, c := range w.clients {
+		if !c.finished.Load() && c.next < len(c.plan) {
+			return false
+		}
+	}
+	return true
+}
+
+func (w *AWorld) drainMode(extra func() bool, clock bool) string {
 	fruitless := 0
 	for iter := 0; iter < 3000; iter++ {
 		synctest.Wait()
@@ -629,6 +687,9 @@ func (w *AWorld) drain(extra func() bool) string {
 		if w.progress > before || w.sched.Picks > picksBefore || started || moved {
 			fruitless = 0
 			continue
+		}
+		if !clock && w.allCallsDone() {
+			break
 		}
 		fruitless++
 		if fruitless > 3 {
